@@ -83,9 +83,15 @@ def result_propagated(facts, fn, bb):
         return True
     sy = sym(fn)
     is_r = lambda x: x[0] == "call" and x[1] == bb
+    from .cfg import cfg
+    c = cfg(fn)
     for b2, t2 in fn.calls():
         if norm(cname(t2)).endswith("Try>::branch") and t2["args"] and mentions(sy.operand(t2["args"][0]), is_r):
-            return True
+            # .. on every way on from the call: a `match` that lets one error kind pass and hands only the rest to `?`
+            # drops an error (the `?` is then reached on some paths only)
+            if b2 in c.pdom().get(bb, set()) or b2 == bb:
+                return True
+            return False
     for bi, b in enumerate(fn.blocks):
         if b["cleanup"]:
             continue
